@@ -1,6 +1,6 @@
 """C15 drivers (code -> spec): run the real packet library on damaged frames /
 arbitrary bytes and record what it did, in the event schema of
-TracePktGrammarAny.tla.  The verdict is TLC's; this module only records.
+PktGrammarAnyTrace.tla.  The verdict is TLC's; this module only records.
 
 Every byte string goes the same way as in the replay adapter: data of an
 OFPT_PACKET_IN -> real of_01.Connection -> PacketIn handler -> event.parsed.
